@@ -723,7 +723,6 @@ func (c *Cluster) Shutdown(ctx context.Context) error {
 	// - cluster was ready (no bootstrapping error)
 	// - We are not removed already (means watchPeers() called us)
 	if c.consensus != nil && c.config.LeaveOnShutdown && c.readyB && !c.removed {
-		c.removed = true
 		_, err := c.consensus.Peers(ctx)
 		if err == nil {
 			// best effort
@@ -731,6 +730,11 @@ func (c *Cluster) Shutdown(ctx context.Context) error {
 			err := c.consensus.RmPeer(ctx, c.id)
 			if err != nil {
 				logger.Error("leaving cluster: " + err.Error())
+			} else {
+				// Only when we did leave may the consensus state be
+				// discarded below. A peer that is still in the peerset
+				// and comes back without its log breaks the others.
+				c.removed = true
 			}
 		}
 	}
